@@ -126,6 +126,12 @@ class World:
                  "name": "*" if rng.random() < 0.7 else "+", "type": a,
                  "required": False, "handler": None,
                  "attribute": "slot_%d" % (i + 1)})
+        # a top-level key no generated text sets (for a command-line
+        # option that has nothing to do with sections)
+        model["children"].append(
+            {"kind": "key", "name": "zopt", "datatype": "string",
+             "required": False, "handler": None, "attribute": None,
+             "default": None, "defaults": []})
         if rng.random() < 0.3:
             model["children"].append(
                 {"kind": "section", "name": "main", "type": abstracts[0],
@@ -547,7 +553,18 @@ def run_world(ctx, w, hook, rng):
     comp_types |= set(t["name"] for t in w.broken_types)
     for_validator = None
     from ZConfig.loader import ConfigLoader
-    long_lived = ConfigLoader(w.schema)
+    from ZConfig.cmdline import ExtendedConfigLoader
+    # the loader object kept for every text of the world: a plain one,
+    # the command-line loader without options, or the command-line loader
+    # with an option that sets the top-level key 'zopt'
+    ll_kind = rng.choice(["plain", "plain", "ext", "ext-opt"])
+    if ll_kind == "plain":
+        long_lived = ConfigLoader(w.schema)
+    else:
+        long_lived = ExtendedConfigLoader(w.schema)
+        if ll_kind == "ext-opt":
+            long_lived.addOption("zopt=1")
+    res.count("long_lived_loader_" + ll_kind)
     earlier = []
     for _ in range(SEQS[ctx.tier]):
         for li in range(rng.randint(1, 4)):
@@ -596,12 +613,17 @@ def run_world(ctx, w, hook, rng):
                     res.count("loads_by_long_lived_loader")
                     want = ("ok", exp[1]) if exp[0] == "accept" \
                         else ("reject",)
+                    if ll_kind == "ext-opt" and exp[0] == "accept":
+                        e2 = expected(w, text + "zopt 1\n")
+                        want = ("ok", e2[1]) if e2[0] == "accept" \
+                            else ("unexpected", e2)
                     got = ("ok", o2[1]) if o2[0] == "ok" else ("reject",)
                     if want != got:
                         res.violate(
                             "long-lived-loader-differs",
                             {"xml": w.xml, "text": text, "via": "loader",
                              "earlier_texts": list(earlier[-6:]),
+                             "loader_kind": ll_kind,
                              "components": [[n, ts]
                                             for n, ts in w.components],
                              "imports": dict(w.imports),
@@ -862,7 +884,13 @@ def replay(ctx, case):
         exp = expected(w, case["text"])
         if case.get("via") == "loader":
             from ZConfig.loader import ConfigLoader
-            ld = ConfigLoader(schema)
+            from ZConfig.cmdline import ExtendedConfigLoader
+            kind = case.get("loader_kind", "plain")
+            ld = ConfigLoader(schema) if kind == "plain" \
+                else ExtendedConfigLoader(schema)
+            if kind == "ext-opt":
+                ld.addOption("zopt=1")
+                exp = expected(w, case["text"] + "zopt 1\n")
             for t in case.get("earlier_texts", ()):
                 outcome._finish(lambda: ld.loadFile(io.StringIO(t)))
             obs = outcome._finish(
